@@ -199,8 +199,16 @@ func formatValue(value interface{}, module *parser.Frugal) template.HTML {
 		display := "{ "
 		prefix := ""
 		for _, keyValue := range v {
-			display += fmt.Sprintf("%s%s = %s", prefix,
-				formatValue(keyValue.KeyToString(), module), formatValue(keyValue.Value, module))
+			// Field names and identifiers are shown as strings; the key of a
+			// map constant can be of any other type as well.
+			var key template.HTML
+			switch keyValue.Key.(type) {
+			case string, parser.Identifier:
+				key = formatValue(keyValue.KeyToString(), module)
+			default:
+				key = formatValue(keyValue.Key, module)
+			}
+			display += fmt.Sprintf("%s%s = %s", prefix, key, formatValue(keyValue.Value, module))
 			prefix = ", "
 		}
 		display += " }"
